@@ -52,6 +52,8 @@ struct Options {
     //! report a livelock when all runnable threads only re-read unchanged atomics / yield for this many
     //! consecutive rounds (0 = never; code that polls an atomic while doing thread-local work needs 0)
     unsigned livelock_rounds = 64;
+    //! additional scheduling point after mutex unlock and after atomic stores / read-modify-writes
+    bool post_release_points = true;
 };
 
 class Scheduler {
@@ -267,6 +269,10 @@ public:
         s.point("unlock"); // every shared operation has its scheduling point BEFORE it takes effect
         if (s.unlock_hook) s.unlock_hook(this, s.current);
         release_nopoint();
+        // ... and release-type operations get a second point AFTER them: the thread's following
+        // plain (uninstrumented) accesses must be interleavable with what the release enabled
+        // (e.g. a job enqueued under the lock that frees the object the enqueuer still reads).
+        if (s.opt.post_release_points) s.point("unlock(done)");
     }
     int owner() const { return owner_; }
 };
@@ -431,9 +437,14 @@ public:
         t.last_load_val = (unsigned long long)v_;
         return v_;
     }
+    void post(const char* op) const {
+        auto& s = S();
+        if (s.active && s.opt.post_release_points) s.point(op);
+    }
     void store(T x, ::std::memory_order = ::std::memory_order_seq_cst) noexcept {
         pre("store");
         v_ = x;
+        post("store(done)");
     }
     T exchange(T x, ::std::memory_order = ::std::memory_order_seq_cst) noexcept {
         pre("exchange");
@@ -464,12 +475,14 @@ public:
         pre("fetch_add");
         T o = v_;
         v_ = (T)(o + d);
+        post("fetch_add(done)");
         return o;
     }
     T fetch_sub(T d, ::std::memory_order = ::std::memory_order_seq_cst) noexcept {
         pre("fetch_sub");
         T o = v_;
         v_ = (T)(o - d);
+        post("fetch_sub(done)");
         return o;
     }
     T operator++() noexcept { return (T)(fetch_add(1) + 1); }
